@@ -433,7 +433,11 @@ class SW(BadMixin, c14.SWorld):
                 "proof_ctor": lambda: SparseMerkleProof(k, x, good_branch),
             }[entry]
         elif arg == "root":
-            fn = lambda: SparseMerkleTree.from_db(db, x, key_size=ks, default=self.default)
+            # the refused re-open may also name another key size or default than the tree
+            # that filled the store (its own empty-tree nodes are then not in the store)
+            ks2 = (ks, ks % 32 + 1, 1 if ks > 1 else 2)[self.ev % 3]
+            d2 = self.default if self.ev % 2 else b"another default"
+            fn = lambda: SparseMerkleTree.from_db(db, x, key_size=ks2, default=d2)
         elif arg == "branch":
             fn = {"calc_root": lambda: calc_root(k, v, x), "proof_ctor": lambda: SparseMerkleProof(k, v, x)}[entry]
         else:
